@@ -274,27 +274,69 @@ fn check_inner(c: &Case, rec: &mut Rec) -> CheckResult {
         cmp_result("map extend().union()", c, &got, &want, true)?;
         let (got, _) = drain_keys!(sets.iter().collect::<fst::set::OpBuilder>().intersection());
         cmp_result("set collect().intersection()", c, &got, &expected(&models, Op::Intersection), false)?;
-        // Fst::op() / Map::op() / Set::op(): a builder that already holds `self`
-        if k >= 2 {
+    }
+    // Fst::op() / Map::op() / Set::op(): a builder that already holds `self` (which may be empty,
+    // and may be the only stream); the other streams join through push/add by their kind
+    if c.streams[0].0 == SKind::Fst {
+        for op in [Op::Union, Op::Intersection, Op::Difference, Op::SymDiff] {
+            let want = expected(&models, op);
             let mut ob = fsts[0].op();
-            for f in &fsts[1..] {
-                ob = ob.add(f);
+            for (i, (kind, p)) in c.streams.iter().enumerate().skip(1) {
+                match kind {
+                    SKind::Fst => ob = ob.add(&fsts[i]),
+                    SKind::Range => ob.push(fsts[i].range().ge(&lows[i]).lt("z")),
+                    SKind::Search => ob.push(fsts[i].search(not_z())),
+                    SKind::User => ob.push(VecStream::new(p)),
+                }
             }
-            let (got, _) = drain!(ob.difference());
-            cmp_result("Fst::op().add().difference()", c, &got, &expected(&models, Op::Difference), true)?;
+            let (got, _) = match op {
+                Op::Union => drain!(ob.union()),
+                Op::Intersection => drain!(ob.intersection()),
+                Op::Difference => drain!(ob.difference()),
+                Op::SymDiff => drain!(ob.symmetric_difference()),
+            };
+            cmp_result(&format!("Fst::op() {:?}", op), c, &got, &want, true)?;
             let mut ob = maps[0].op();
-            for m in &maps[1..] {
-                ob.push(m);
+            for (i, (kind, p)) in c.streams.iter().enumerate().skip(1) {
+                match kind {
+                    SKind::Fst => ob = ob.add(&maps[i]),
+                    SKind::Range => ob.push(maps[i].range().ge(&lows[i]).lt("z")),
+                    SKind::Search => ob.push(maps[i].search(not_z())),
+                    SKind::User => ob.push(MapVecStream(VecStream::new(p))),
+                }
             }
-            let (got, _) = drain!(ob.intersection());
-            cmp_result("Map::op().push().intersection()", c, &got, &expected(&models, Op::Intersection), true)?;
+            let (got, _) = match op {
+                Op::Union => drain!(ob.union()),
+                Op::Intersection => drain!(ob.intersection()),
+                Op::Difference => drain!(ob.difference()),
+                Op::SymDiff => drain!(ob.symmetric_difference()),
+            };
+            cmp_result(&format!("Map::op() {:?}", op), c, &got, &want, true)?;
             let mut ob = sets[0].op();
-            for s in &sets[1..] {
-                ob = ob.add(s);
+            for (i, (kind, p)) in c.streams.iter().enumerate().skip(1) {
+                match kind {
+                    SKind::Fst => ob = ob.add(&sets[i]),
+                    SKind::Range => ob.push(sets[i].range().ge(&lows[i]).lt("z")),
+                    SKind::Search => ob.push(sets[i].search(not_z())),
+                    SKind::User => ob.push(KeyStream { items: p, pos: 0 }),
+                }
             }
-            let (got, _) = drain_keys!(ob.symmetric_difference());
-            cmp_result("Set::op().add().symmetric_difference()", c, &got, &expected(&models, Op::SymDiff), false)?;
+            let (got, _) = match op {
+                Op::Union => drain_keys!(ob.union()),
+                Op::Intersection => drain_keys!(ob.intersection()),
+                Op::Difference => drain_keys!(ob.difference()),
+                Op::SymDiff => drain_keys!(ob.symmetric_difference()),
+            };
+            cmp_result(&format!("Set::op() {:?}", op), c, &got, &want, false)?;
         }
+        if !rec.muted {
+            rec.class("op()_receiver");
+            if models[0].is_empty() {
+                rec.class("op()_receiver_empty");
+            }
+        }
+    }
+    if c.streams.iter().all(|(kind, _)| *kind == SKind::Fst) {
         let mut ob = fst::raw::OpBuilder::new();
         for f in &fsts {
             ob = ob.add(f);
@@ -463,7 +505,7 @@ pub fn run(e: &Engine) {
         |c| c.to_json(),
         check,
     );
-    for cls in ["k=1", "k=6", "has_empty_stream", "has_empty_key", "identical_streams", "stream_kind:range", "stream_kind:search", "stream_kind:user", "stream_kind:fst"] {
+    for cls in ["op()_receiver_empty", "k=1", "k=6", "has_empty_stream", "has_empty_key", "identical_streams", "stream_kind:range", "stream_kind:search", "stream_kind:user", "stream_kind:fst"] {
         e.require_class(cls, 1);
     }
 }
